@@ -290,12 +290,14 @@ func TestC05(t *testing.T) {
 	if run.Shard == 0 {
 		t.Run("exhaustive", exhaustive)
 	}
-	rapid.Check(t, func(t *rapid.T) {
-		c := gen(t)
-		record(c)
-		if err := oracle(c); err != nil {
-			hx.Fail(t, run, c, err)
-		}
+	t.Run("generated", func(t *testing.T) {
+		rapid.Check(t, func(t *rapid.T) {
+			c := gen(t)
+			record(c)
+			if err := oracle(c); err != nil {
+				hx.Fail(t, run, c, err)
+			}
+		})
 	})
 }
 
